@@ -79,6 +79,9 @@ func TestC12(t *testing.T) {
 		{"SELECT x.id, y.m FROM (SELECT id, ASYNC.ZZSLOW(a) AS s, (SELECT v FROM k) AS q FROM t) x JOIN r y ON x.id = y.m", true},
 		{"SELECT id, AWAIT((SELECT v FROM k)) AS s FROM t", false},
 		{"SELECT q.id, q.s FROM (SELECT id, ASYNC.ZZSLOW(a) AS s FROM t) q", false},
+		// the deferred work of the right side of a join (the left side is two lines up), and of both sides at once
+		{"SELECT x.m, y.s FROM r x JOIN (SELECT id, ASYNC.ZZSLOW(a) AS s FROM t) y ON x.m = y.id", true},
+		{"SELECT x.m, y.s FROM r x LEFT JOIN (SELECT id, ASYNC.ZZSLOW(a) AS s, (SELECT v FROM k) AS q FROM t) y ON x.m = y.id", true},
 	}
 	r := &result{Property: "C12", Name: "results-are-plain-and-repeatable", Bound: fmt.Sprintf("%d queries over the expression forms of every clause, each evaluated 8 times on equal inputs", len(queries))}
 	for _, c := range queries {
